@@ -1489,4 +1489,102 @@ theorem pingpong_props : ∀ (n : Nat),
     · simp only [stealPingpong, List.count_append] at *
       omega
 
+
+/-! ### a fiber whose context is still being saved can be bypassed without bound -/
+
+/-- thread 1 steals fiber 1 and runs it; fiber 1 parks in state SAVING_STATE_TO_WAIT; fiber 0
+    wakes it at once — and thread 1 does not get to complete the context switch -/
+def svSetup : List Ev :=
+  [.sched 0 1, .sched 0 2, .steal 1 0 .to 1, .pushed 1 .frm 1, .pop 1 1, .switch 1 1,
+   .finish 1 true, .sched 0 1]
+
+/-- fibers 0 and 2 keep yielding to each other on thread 0; every time fiber_scheduler_next comes
+    across fiber 1 it finds it SAVING_STATE_TO_WAIT and skips it -/
+def svCycle : List Ev :=
+  [.yield 0, .pop 0 1, .skip 0 1, .pushed 0 .to 1, .pop 0 2, .switch 0 2, .pushed 0 .to 0,
+   .yield 0, .pop 0 0, .switch 0 0, .pushed 0 .to 2,
+   .yield 0, .pop 0 1, .skip 0 1, .pushed 0 .to 1, .resumed 0]
+
+def savingSkipped : Nat → List Ev
+  | 0 => []
+  | n + 1 => svCycle ++ savingSkipped n
+
+/-- the states the run passes through at the start of every cycle -/
+structure SV (s : St) : Prop where
+  frm0 : s.frm 0 = []
+  to0 : s.to 0 = [1, 2]
+  cur0 : s.cur 0 = some 0
+  ph0 : s.phase 0 = .running
+  hand0 : s.hand 0 = none
+  pend0 : s.pend 0 = none
+  sav0 : s.sav 0 = false
+  sav1 : s.sav 1 = true
+  sav2 : s.sav 2 = false
+  loc1 : s.loc 1 = some 0
+
+theorem sv_setup (M : Nat) : ∃ s, (sys M).run svSetup = some s ∧ SV s ∧ s.busy.length = 3 := by
+  refine ⟨_, rfl, ?_, rfl⟩
+  constructor <;> rfl
+
+theorem sv_cycle (M : Nat) {s : St} (h : SV s) :
+    ∃ s', (sys M).runFrom s svCycle = some s' ∧ SV s' ∧ s'.busy = s.busy ∧
+      holderSwitches M 1 s svCycle = 2 := by
+  obtain ⟨a1, a2, a3, a4, a6, a7, a8, a9, a10, a11⟩ := h
+  simp only [svCycle, Sys.runFrom, sys, holderSwitches]
+  simp [step, next, upd, holderSwitch, a1, a2, a3, a4, a6, a7, a8, a9, a10, a11]
+  constructor <;> simp [upd, *]
+
+theorem holderSwitches_append (M f : Nat) : ∀ (a b : List Ev) (s : St),
+    holderSwitches M f s (a ++ b) = holderSwitches M f s a +
+      (match (sys M).runFrom s a with
+       | some s1 => holderSwitches M f s1 b
+       | none => 0) := by
+  intro a
+  induction a with
+  | nil => intro b s; simp [holderSwitches, Sys.runFrom]
+  | cons e a ih =>
+    intro b s
+    simp only [List.cons_append, holderSwitches, Sys.runFrom, sys]
+    cases hst : step M s e with
+    | none => simp
+    | some s1 =>
+      simp only []
+      have := ih b s1
+      simp only [sys] at this
+      rw [this]
+      omega
+
+theorem saving_run (M : Nat) : ∀ (n : Nat) {s : St}, SV s →
+    ∃ s', (sys M).runFrom s (savingSkipped n) = some s' ∧ SV s' ∧ s'.busy = s.busy ∧
+      holderSwitches M 1 s (savingSkipped n) = 2 * n
+  | 0, s, h => ⟨s, rfl, h, rfl, rfl⟩
+  | n + 1, s, h => by
+    obtain ⟨s1, h1, hp1, hb1, hc1⟩ := sv_cycle M h
+    obtain ⟨s2, h2, hp2, hb2, hc2⟩ := saving_run M n hp1
+    refine ⟨s2, ?_, hp2, hb2.trans hb1, ?_⟩
+    · simp [savingSkipped, Sys.runFrom_append, h1, h2]
+    · simp only [savingSkipped]
+      rw [holderSwitches_append, h1, hc1]
+      simp only [hc2]
+      omega
+
+theorem svCycle_props : (∀ e ∈ svCycle, isSched e = false ∧ isRunOf 1 e = false) ∧
+    stealsOf 1 svCycle = 0 := by decide
+
+theorem saving_props : ∀ (n : Nat),
+    (∀ e ∈ savingSkipped n, isSched e = false ∧ isRunOf 1 e = false) ∧
+    stealsOf 1 (savingSkipped n) = 0
+  | 0 => by simp [savingSkipped, stealsOf]
+  | n + 1 => by
+    obtain ⟨h1, h2⟩ := saving_props n
+    obtain ⟨c1, c2⟩ := svCycle_props
+    refine ⟨?_, ?_⟩
+    · intro e he
+      simp only [savingSkipped, List.mem_append] at he
+      rcases he with he | he
+      · exact c1 e he
+      · exact h1 e he
+    · simp only [stealsOf, savingSkipped, List.countP_append] at *
+      omega
+
 end LibfiberVerif.SchedN
